@@ -149,6 +149,11 @@ func c16vfork(args []string) int {
 	devnull()
 	forkexec.VerifChildGateFd = 3 // read end of the gate pipe, inherited from the check
 	ch := &forkexec.Runner{Args: []string{probe("tree"), nonce, "p+", "pause"}, Env: []string{}, Files: stdioNull(), Ptrace: true}
+	if os.Getenv("C16_CRED") == "1" {
+		// the child changes its credentials before it reaches the gate (the kernel forgets a parent-death signal when the
+		// effective ids change)
+		ch.Credential = &syscall.Credential{Uid: 10001, Gid: 10001}
+	}
 	t := ptracer.Tracer{Handler: &c16stepper{k: -1}, Runner: ch, Limit: bigLimit}
 	t.Trace(context.Background())
 	fmt.Println("DONE")
@@ -163,7 +168,7 @@ func init() {
 		spec := &mc.Spec{
 			Level: "fault_enumeration",
 			Rule: "container: operation ∈ {ping, open, reset, execve (sync before / after exec) of a process tree with a signal-ignoring child, a double-forked daemon, a grandchild and a HUP/TERM-ignoring child} × crash point ∈ {idle after build, host held at send-pre / send-post / recv, inside the callback, send-pre(ok), select, while the program runs, " +
-				"container held at dispatch / started / select / reply withheld, while the init runs a long init command during build}: the controller (a helper process) is SIGKILLed exactly there; tracer: the tracing process is SIGKILLed at every tracer step of a run of the same kind of tree. " +
+				"container held at dispatch / started / select / reply withheld, while the init runs a long init command during build}: the controller (a helper process) is SIGKILLed exactly there; tracer: the tracing process is SIGKILLed at every tracer step of a run of the same kind of tree, and on the vfork launch path while its child is held before PTRACE_TRACEME (child released afterwards or never; with and without a credential switch in the child). " +
 				"Oracle: the container init and every process carrying the run's nonce are gone within the horizon without further action. distinct = (operation, crash point, what was alive before / after)",
 			Bound:       map[string]any{"tree": c16shape, "tracer_steps": 40},
 			Assumptions: []string{"a launcher child that has not exec'ed the target yet is not an untrusted process", "the three mechanisms (parent-death signal, socket EOF, pid-namespace teardown; PTRACE_O_EXITKILL) overlap: crash points where only one of them applies are in the alphabet on purpose (container held inside a point that does not watch the socket; init busy with the init command)"},
@@ -367,7 +372,8 @@ func c16tracer(x *mc.X, tier string) {
 // traced; the child is then released and must not go on to run the target.
 func c16vforkLaunch(x *mc.X) {
 	release := x.Pick("child-released", "after-the-tracer-died", "never(only-the-kill)")
-	x.Note("crash", "tracer on the vfork launch path killed between fork and the child's PTRACE_TRACEME; child "+release)
+	cred := x.Bool("child-switches-credentials")
+	x.Note("crash", fmt.Sprintf("tracer on the vfork launch path killed between fork and the child's PTRACE_TRACEME; child %s; child switches to uid/gid 10001 first: %v", release, cred))
 	if x.Dry() {
 		return
 	}
@@ -381,6 +387,9 @@ func c16vforkLaunch(x *mc.X) {
 	defer pw.Close()
 	cmd := exec.Command(self, "c16vfork")
 	cmd.Env = append(os.Environ(), "C16_NONCE="+nonce)
+	if cred {
+		cmd.Env = append(cmd.Env, "C16_CRED=1")
+	}
 	cmd.ExtraFiles = []*os.File{pr}
 	cmd.SysProcAttr = &syscall.SysProcAttr{Setsid: true}
 	cmd.Stderr = os.Stderr
@@ -409,10 +418,10 @@ func c16vforkLaunch(x *mc.X) {
 		pw.Write([]byte{1})
 	}
 	gone := waitUntil(horizon, func() bool { return !pidAlive(child) && len(scanNonce(nonce)) == 0 })
-	x.Distinct(fmt.Sprint("vfork", release, gone))
+	x.Distinct(fmt.Sprint("vfork", release, cred, gone))
 	x.Outcome(fmt.Sprintf("vfork-launch:gone=%v", gone))
 	if !gone {
-		x.Failf("C16/tracer/survives/vfork-launch", "tracer killed while its vfork child had not yet asked to be traced (child %s): child %d is %s, target processes alive: %v", release, child, procState(child), scanNonce(nonce))
+		x.Failf("C16/tracer/survives/vfork-launch"+map[bool]string{true: "+credential", false: ""}[cred], "tracer killed while its vfork child had not yet asked to be traced (child %s, credential switch %v): child %d is %s, target processes alive: %v", release, cred, child, procState(child), scanNonce(nonce))
 		syscall.Kill(child, syscall.SIGKILL)
 		killNonce(nonce)
 	}
